@@ -197,7 +197,7 @@ P["C13"] = {
           [job("H_C11_client_cancel_unread", conc=True, reach=["checked"], m=m) for m in (1, 3)],  # bodies nobody receives, then the caller gives up: the call must still end
  "thorough": [job("H_C11_client_cancel_unread", conc=True, reach=["checked"], m=m) for m in (1, 3)] + [job("H_C13_seq", conc=True, reach=["checked"], L=4, mode=0, stats=0, preset=1)] + [job("H_C13_seq", conc=True, reach=["checked"], L=1, mode=m, stats=s) for m in (0, 1, 2) for s in (0, 1)] +
           [job("H_C13_seq", conc=True, reach=["checked"], L=2, mode=m, stats=1, first=f) for f in range(13) for m in (0, 1)] +
-          [job("H_C13_seq", conc=True, reach=["checked"], L=3, mode=0, stats=0, first=f) for f in range(12)],
+          [job("H_C13_seq", conc=True, reach=["checked"], L=3, mode=0, stats=0, first=f, second=s2) for f in range(13) for s2 in range(13)],  # split by the first two shapes: 169 jobs of 1-3 min
 }
 
 # ---------------------------------------------------------------- C14
